@@ -437,13 +437,120 @@ fn run_bilinear<T: Fl>(job: &Job, out: &mut JobOut) {
     }
 }
 
+/// Integer element types: affine / bilinear functions with integer coefficients on integer axes,
+/// queried at every integer point inside the range and a few outside. Every division the method
+/// needs is exact there, so the polynomial is reproduced exactly (one unit of slack is granted for
+/// a formulation that truncates once).
+macro_rules! int_phase {
+    ($name:ident, $t:ty) => {
+        fn $name(wx: &[i64], out: &mut JobOut) {
+            use ndarray::{Array1, Array2};
+            use ndarray_interp::interp1d::{Interp1DBuilder, Linear};
+            use ndarray_interp::interp2d::{Bilinear, Interp2DBuilder};
+            let tn = stringify!($t);
+            let knots = |w: &[i64], off: i64| -> Vec<i64> {
+                let mut x = vec![off];
+                for h in w {
+                    x.push(x[x.len() - 1] + h);
+                }
+                x
+            };
+            let coef = [-2i64, -1, 0, 1, 3];
+            for off in [0i64, -4] {
+                let x = knots(wx, off);
+                let n = x.len();
+                let xa = Array1::from(x.iter().map(|&v| v as $t).collect::<Vec<$t>>());
+                let qs: Vec<i64> = (x[0] - 3..=x[n - 1] + 3).collect();
+                // Linear
+                for &a in &coef {
+                    for &b in &coef {
+                        let y = Array1::from(x.iter().map(|&v| (a + b * v) as $t).collect::<Vec<$t>>());
+                        let ip = match catch(|| Interp1DBuilder::new(y.clone()).x(xa.clone()).strategy(Linear::new().extrapolate(true)).build()) {
+                            Ok(Ok(ip)) => ip,
+                            other => {
+                                out.violate(format!("{tn}:linear:{x:?}:build").replace(' ', ""), format!("valid integer input not accepted: {:?}", other.map(|r| r.map(|_| ()))), Json::Null);
+                                continue;
+                            }
+                        };
+                        out.states += 1;
+                        for &q in &qs {
+                            let want = a + b * q;
+                            let got = catch(|| ip.interp_scalar(q as $t));
+                            out.evals += 1;
+                            if b != 0 {
+                                out.nontrivial += 1;
+                            }
+                            let ok = matches!(&got, Ok(Ok(v)) if ((*v as i64) - want).abs() <= 1);
+                            if !ok {
+                                out.violate(
+                                    format!("{tn}:linear:{x:?}:{a},{b}").replace(' ', ""),
+                                    format!("Linear<{tn}> over x = {x:?}, y = {a} + {b} x at q = {q}: got {got:?}, the function has {want}"),
+                                    Json::obj(vec![("type", Json::str(tn)), ("x", Json::Arr(x.iter().map(|&v| Json::Int(v as i128)).collect())), ("a", Json::Int(a as i128)), ("b", Json::Int(b as i128)), ("query", Json::Int(q as i128))]),
+                                );
+                                break;
+                            }
+                        }
+                    }
+                }
+                // Bilinear: x axis from the word, y axis from the reversed word with another offset
+                let wy: Vec<i64> = wx.iter().rev().cloned().chain([2]).collect();
+                let yk = knots(&wy, off + 1);
+                let ya = Array1::from(yk.iter().map(|&v| v as $t).collect::<Vec<$t>>());
+                let c4 = [-1i64, 0, 1, 2];
+                for &a in &c4 {
+                    for &b in &c4 {
+                        for &c in &c4 {
+                            for &d in &c4 {
+                                let f = |u: i64, v: i64| a + b * u + c * v + d * u * v;
+                                let z = Array2::from_shape_fn((n, yk.len()), |(i, j)| f(x[i], yk[j]) as $t);
+                                let ip = match catch(|| Interp2DBuilder::new(z.clone()).x(xa.clone()).y(ya.clone()).strategy(Bilinear::new().extrapolate(true)).build()) {
+                                    Ok(Ok(ip)) => ip,
+                                    other => {
+                                        out.violate(format!("{tn}:bilinear:{x:?}:build").replace(' ', ""), format!("valid integer grid not accepted: {:?}", other.map(|r| r.map(|_| ()))), Json::Null);
+                                        continue;
+                                    }
+                                };
+                                out.states += 1;
+                                'q: for qx in x[0] - 2..=x[n - 1] + 2 {
+                                    for qy in yk[0] - 2..=yk[yk.len() - 1] + 2 {
+                                        let want = f(qx, qy);
+                                        let got = catch(|| ip.interp_scalar(qx as $t, qy as $t));
+                                        out.evals += 1;
+                                        if d != 0 {
+                                            out.nontrivial += 1;
+                                        }
+                                        let ok = matches!(&got, Ok(Ok(v)) if ((*v as i64) - want).abs() <= 1);
+                                        if !ok {
+                                            out.violate(
+                                                format!("{tn}:bilinear:{x:?}x{yk:?}:{a},{b},{c},{d}").replace(' ', ""),
+                                                format!("Bilinear<{tn}> over x = {x:?}, y = {yk:?}, z = {a} + {b} x + {c} y + {d} xy at ({qx}, {qy}): got {got:?}, the function has {want}"),
+                                                Json::obj(vec![("type", Json::str(tn)), ("x", Json::Arr(x.iter().map(|&v| Json::Int(v as i128)).collect())), ("y", Json::Arr(yk.iter().map(|&v| Json::Int(v as i128)).collect())), ("coefficients", Json::Arr([a, b, c, d].iter().map(|&v| Json::Int(v as i128)).collect())), ("query", Json::Arr(vec![Json::Int(qx as i128), Json::Int(qy as i128)]))]),
+                                            );
+                                            break 'q;
+                                        }
+                                    }
+                                }
+                            }
+                        }
+                    }
+                }
+            }
+            if out.sample.is_none() {
+                out.sample = Some(Json::str(&format!("{tn}: interval word {wx:?}")));
+            }
+        }
+    };
+}
+int_phase!(int_i32, i32);
+int_phase!(int_i64, i64);
+
 fn body(ctx: &Ctx) -> (Summary, Meta) {
     let quick = ctx.quick();
     let mut jobs = vec![];
     for f32 in [false, true] {
         let mut sp = if quick {
             let mut v = alpha::full_word_axes(&alpha::h3(), "w", 3, 5, &[0.0, -3.0]);
-            v.extend(alpha::long_word_axes(&alpha::h4(), "L", &[8, 12], 1, &[0.0]));
+            v.extend(alpha::long_word_axes(&alpha::h4(), "L", &[8, 12, 24, 32], 1, &[0.0]));
             v
         } else {
             let mut v = alpha::full_word_axes(&alpha::h4(), "w", 3, 6, &alpha::OFFSETS);
@@ -469,7 +576,16 @@ fn body(ctx: &Ctx) -> (Summary, Meta) {
         }
     }
     let njobs = jobs.len();
-    let sum = run_jobs(ctx, "polynomial-reproduction", &jobs, |j| j.key(), |j| {
+    // integer element types: interval words over {1, 2, 3}
+    let mut int_words: Vec<Vec<i64>> = vec![];
+    for len in 1..=if quick { 3 } else { 4 } {
+        let mut ws: Vec<Vec<i64>> = vec![vec![]];
+        for _ in 0..len {
+            ws = ws.iter().flat_map(|w| [1i64, 2, 3].iter().map(move |h| { let mut v = w.clone(); v.push(*h); v })).collect();
+        }
+        int_words.extend(ws);
+    }
+    let mut sum = run_jobs(ctx, "polynomial-reproduction", &jobs, |j| j.key(), |j| {
         let mut out = JobOut::default();
         match (&j.kind, j.f32) {
             (Kind::Spline, false) => run_spline::<f64>(j, &mut out),
@@ -481,8 +597,14 @@ fn body(ctx: &Ctx) -> (Summary, Meta) {
         }
         out
     });
+    sum.merge(run_jobs(ctx, "integer-element-types", &int_words, |w| format!("int:{w:?}").replace(' ', ""), |w| {
+        let mut out = JobOut::default();
+        int_i32(w, &mut out);
+        int_i64(w, &mut out);
+        out
+    }));
     let meta = Meta {
-        rule: "all 256 polynomials with coefficients in {-1,0,1/2,2} of degree <= 3; per axis ONE Individual build whose lanes are every (polynomial, left condition, right condition) with conditions the polynomial satisfies (NotAKnot for n>=4, FirstDeriv(p'), SecondDeriv(p''), Natural iff p''=0, Clamped iff p'=0; n=3: one NotAKnot end + a derivative end, both NotAKnot for degree<=2) - so every lane has its own boundary pair and values - plus the whole-data-set NotAKnot default, row-level NotAKnot and Natural-for-lines builds; affine functions for Linear; all 256 forms a+bx+cy+dxy for Bilinear; queries: in-range grid (4 per interval) and 4 extrapolated ones. Oracle: exact polynomial value. Non-trivial = degree >= 2 (spline), degree 1 (Linear), d != 0 (Bilinear).".into(),
+        rule: "all 256 polynomials with coefficients in {-1,0,1/2,2} of degree <= 3; per axis ONE Individual build whose lanes are every (polynomial, left condition, right condition) with conditions the polynomial satisfies (NotAKnot for n>=4, FirstDeriv(p'), SecondDeriv(p''), Natural iff p''=0, Clamped iff p'=0; n=3: one NotAKnot end + a derivative end, both NotAKnot for degree<=2) - so every lane has its own boundary pair and values - plus the whole-data-set NotAKnot default, row-level NotAKnot and Natural-for-lines builds; affine functions for Linear; all 256 forms a+bx+cy+dxy for Bilinear; queries: in-range grid (4 per interval) and 4 extrapolated ones. Oracle: exact polynomial value. Non-trivial = degree >= 2 (spline), degree 1 (Linear), d != 0 (Bilinear). Phase integer-element-types (i32, i64): every interval word over {1,2,3} (1..3 (4) intervals, 2 offsets), Linear on a + b x (25 coefficient pairs) and Bilinear on all 256 forms with coefficients in {-1,0,1,2}, extrapolation on, every integer query from 3 (2) below to 3 (2) above the range; all divisions are exact there, slack 1 unit.".into(),
         bounds: format!("{njobs} (type, axis/grid, strategy) jobs; tier {}", ctx.tier.name()),
         assumptions: vec!["tolerance K eps scale inside, 16 K eps scale |t|^3 outside, with scale = max(|y_i|, |h_i p'(x_i)|, |p(q)|)".into()],
         extra: vec![],
